@@ -81,7 +81,7 @@ static inline int mpz_cmpabs(mpz_srcptr a, mpz_srcptr b)
 static inline int mpz_cmp_ui(mpz_srcptr a, unsigned long u)
 { if (u > (unsigned long)0x7fffffffffffffffL) return -1; return a->v < (long)u ? -1 : (a->v > (long)u ? 1 : 0); }
 static inline int mpz_cmp_si(mpz_srcptr a, long s) { return a->v < s ? -1 : (a->v > s ? 1 : 0); }
-static inline int mpz_odd_p(mpz_srcptr a) { return UF(tstbit)(a->v, 0) ? 1 : 0; }
+static inline int mpz_odd_p(mpz_srcptr a) { if (a->v == 0) return 0; /* zero is even */ return UF(tstbit)(a->v, 0) ? 1 : 0; }
 static inline int mpz_even_p(mpz_srcptr a) { return UF(tstbit)(a->v, 0) ? 0 : 1; }
 static inline int mpz_tstbit(mpz_srcptr a, unsigned long i) { return UF(tstbit)(a->v, i) ? 1 : 0; }
 
@@ -162,6 +162,9 @@ static inline void mpz_sqrt(mpz_ptr r, mpz_srcptr a) { r->v = UF(sqrt)(a->v); }
 long UF(mul_2exp)(long, unsigned long);
 _Bool UF(congruent_ui)(long, unsigned long, unsigned long);
 static inline void mpz_mul_2exp(mpz_ptr r, mpz_srcptr a, unsigned long n) { r->v = UF(mul_2exp)(a->v, n); }
+_Bool UF(congruent)(long, long, long);
+/* mpz_congruent_p(n, c, d): n = c (mod d); d = 0 means n == c (GMP manual) */
+static inline int mpz_congruent_p(mpz_srcptr n, mpz_srcptr c, mpz_srcptr d) { if (d->v == 0) return n->v == c->v; if (n->v == c->v) return 1; return UF(congruent)(n->v, c->v, d->v) ? 1 : 0; }
 static inline int mpz_congruent_ui_p(mpz_srcptr a, unsigned long c, unsigned long d) { return UF(congruent_ui)(a->v, c, d) ? 1 : 0; }
 static inline void mpz_swap(mpz_ptr a, mpz_ptr b) { long t = a->v; a->v = b->v; b->v = t; }
 
